@@ -24,7 +24,7 @@ from ..apitable import shape_of
 from ..harness import arr, scalar
 from .. import tq
 from ..interp import State
-from ..terms import T, vconst
+from ..terms import Dim, T, vconst
 
 FLOOR = 60
 CLS = "skmatter.preprocessing.StandardFlexibleScaler"
@@ -93,6 +93,18 @@ def check(ctx):
                         ctx.ob("R-ZEROVAR", f"variance compared with atol + |mean| rtol and rejected before the square root [{cfg}]", ok and okc, f"raise at {guards}, scale_ set at {sets}, guard {conds[:1]}", site, cfg)
                         # the guard itself, against the reference condition
                         gconds = [c_ for e in ev if e["kind"] == "raise" and e.get("short", "").startswith("StandardFlexibleScaler.") for c_, pol in e["pc"][-1:] if pol]
+                        # a guard tested column by column in a loop rejects the same inputs as the vectorised test
+                        from .. import loops as _loops
+                        from ..apitable import dim_term as _dim_term
+
+                        def _columnwise(g):
+                            lvs = {x for x in tq.walk_all(g) if x.op == "lv"}
+                            if len(lvs) != 1:
+                                return g
+                            vt_ = _loops.vectorise(g, next(iter(lvs)), Dim.of("M"), I.term_shape, _dim_term)
+                            return T("any", vt_) if vt_ is not None else g
+
+                        gconds = [_columnwise(g) for g in gconds]
                         if ctx.ob("R-ZEROVAR", f"guard condition located [{cfg}]", bool(gconds), f"{len(gconds)} guard(s)", site, cfg):
                             I3, s3 = ctx.interp(), State()
                             h = st.heap[o.obj.id]
